@@ -302,6 +302,18 @@ var cfgRules = []struct {
 	{"invalid log level", 38}, {"invalid log format", 39},
 }
 
+// values that would wrap in a later conversion (seconds -> time.Duration, breaker counts -> uint32)
+var cfgRangeRules = []struct {
+	sub string
+	id  int
+}{
+	{"server read timeout", 40}, {"server write timeout", 41}, {"server idle timeout", 42}, {"server handler timeout", 43},
+	{"server shutdown timeout", 44}, {"backend dial timeout", 45}, {"backend read timeout", 46}, {"backend idle timeout", 47},
+	{"idle_timeout_seconds", 48}, {"active health check interval", 49}, {"active health check timeout", 50},
+	{"unhealthy timeout", 51}, {"refill rate", 52}, {"circuit breaker interval", 53}, {"circuit breaker timeout", 54},
+	{"max requests", 55}, {"failure threshold", 56}, {"success threshold", 57},
+}
+
 // loadAndStart: LoadConfig, then everything main() constructs before listening.
 func loadAndStart(path string) (res string) {
 	defer func() {
@@ -314,6 +326,13 @@ func loadAndStart(path string) (res string) {
 		msg := err.Error()
 		if strings.Contains(msg, "error parsing config file") {
 			return "load=err:yaml"
+		}
+		if strings.Contains(msg, "is too large") {
+			for _, r := range cfgRangeRules {
+				if strings.Contains(msg, r.sub) {
+					return fmt.Sprintf("load=err:%d", r.id)
+				}
+			}
 		}
 		for _, r := range cfgRules {
 			if strings.Contains(msg, r.sub) {
